@@ -299,6 +299,42 @@ func runC12(c *Ctx) {
 			ob.HoldNT("2 worklists, both provably empty at the publication of prob/alias; every removed index is settled")
 		}
 	}
+	// the constructor's first table is built with the SAME configuration every later Reset uses
+	ob = c.Obl("R1", "common/probdist:New#configuration-before-first-reset", "New stores minValue, maxValue and the bias flag into the object before it builds the first table (Reset): a flag stored afterwards makes New(seed, .., biased) and a later Reset(seed) disagree")
+	if nw := p.Func("common/probdist:New"); nw == nil {
+		ob.Undecide("probdist.New not found")
+	} else {
+		c.Touch(p.FuncKey(nw))
+		bad = ""
+		resets := p.CallsIn(nw, "(*$M/common/probdist.WeightedDist).Reset")
+		if len(resets) != 1 {
+			bad = fmt.Sprintf("%d Reset calls in New", len(resets))
+		} else {
+			for _, f := range []string{"minValue", "maxValue", "biased"} {
+				okF := false
+				late := false
+				for _, st := range p.Stores(tWD, f) {
+					if st.Fn != nw {
+						bad = "the configuration field " + f + " is also written in " + p.FuncKey(st.Fn)
+						continue
+					}
+					if instrDominates(st.Instr, resets[0]) {
+						okF = true
+					} else {
+						late = true
+					}
+				}
+				if !okF || late {
+					bad = "the field " + f + " is not (only) stored before the first Reset in New: the first table is built without it"
+				}
+			}
+		}
+		if bad != "" {
+			ob.Violate("%s", bad)
+		} else {
+			ob.HoldNT("minValue, maxValue, biased stored before Reset")
+		}
+	}
 	// the scaled probabilities are weight*n/sum with sum = the sum of ALL weights, on every path
 	ob = c.Obl("R2", "common/probdist:(*WeightedDist).genTables#normalised", "the tables are built from weight_i * n / (sum of all weights): the divisor is the loop-carried sum over w.weights, started at 0 and taken on every path (assuming a sum of 1 for some configuration makes the tables deviate from the weights)")
 	if gt := p.Func("common/probdist:(*WeightedDist).genTables"); gt == nil {
@@ -522,6 +558,53 @@ func runC12(c *Ctx) {
 			ob.Violate("%s", bad)
 		} else {
 			ob.HoldNT("return Rand.%s(...)", w.method)
+		}
+	}
+	ob = c.Obl("R4", "common/csrand:Bytes#reports-failure", "csrand.Bytes fills the whole slice from crypto/rand.Reader with io.ReadFull and returns nil only if that read succeeded: a failing entropy source is reported, never papered over (keys drawn from an unfilled buffer are publicly computable)")
+	if bf := p.Func("common/csrand:Bytes"); bf == nil {
+		ob.Undecide("csrand.Bytes not found")
+	} else {
+		c.Touch(p.FuncKey(bf))
+		bad = ""
+		var rd *ssa.Call
+		for _, call := range p.CallsIn(bf, "io.ReadFull", "io.ReadAtLeast") {
+			cv, ok := call.(*ssa.Call)
+			if !ok || !p.isReadFull(cv) {
+				continue
+			}
+			src := unspill(cv.Common().Args[0])
+			if mi, isMI := src.(*ssa.MakeInterface); isMI {
+				src = unspill(mi.X)
+			}
+			if ld, isLd := src.(*ssa.UnOp); isLd {
+				if g, isG := ld.X.(*ssa.Global); isG && g.Pkg != nil && g.Pkg.Pkg.Path() == "crypto/rand" && g.Name() == "Reader" {
+					if unspill(cv.Common().Args[1]) == ssa.Value(bf.Params[0]) {
+						rd = cv
+					}
+				}
+			}
+		}
+		if rd == nil {
+			bad = "Bytes does not fill its argument with io.ReadFull(crypto/rand.Reader, buf)"
+		} else {
+			bff := p.Facts(bf)
+			for _, r := range returnsOf(bf) {
+				v := unspill(r.Results[0])
+				if rc, idx := callOf(v); rc == rd && idx == 1 {
+					continue // the read's own error
+				}
+				if bff.ProvablyNonNil(r.Results[0], r.Block(), 0) {
+					continue
+				}
+				if !bff.SucceededCalls(r.Block())[rd] {
+					bad = "the return at " + p.InstrPos(r) + " can report success although the read from crypto/rand.Reader failed or did not happen"
+				}
+			}
+		}
+		if bad != "" {
+			ob.Violate("%s", bad)
+		} else {
+			ob.HoldNT("io.ReadFull(crypto/rand.Reader, buf); nil only after its success")
 		}
 	}
 	ob = c.Obl("R4", "common/csrand.Rand#source", "csrand.Rand is rand.New(csRandSource) and is never replaced")
